@@ -867,6 +867,9 @@ nodesLoop:
 			tc.scopes.DeclareLabel(node)
 			if node.Statement != nil {
 				_ = tc.checkNodes([]ast.Node{node.Statement})
+			} else {
+				// A label followed by an empty statement is not terminating.
+				tc.terminating = false
 			}
 
 		case *ast.Comment, *ast.Raw:
